@@ -122,3 +122,16 @@ def _shift(node, d):
     name, attrs, content, kids = node
     attrs = tuple((k, v + d if k == 'line_number' and v is not None else v) for k, v in attrs)
     return (name, attrs, content, None if kids is None else tuple(_shift(c, d) for c in kids))
+
+
+@lemma('F2.shift', 'C05', timeout=300,
+       covers=['block_tokenizer.py:tokenize_block', 'block_tokenizer.py:FileWrapper.line_number', 'block_token.py:Table.read',
+               'block_token.py:Quote.read', 'block_token.py:ListItem.read'],
+       note='(= C13-N1) every line number recorded for start line S equals the one for S=1 plus S-1, at every nesting level, for an UNBOUNDED symbolic S: B\'s blocks report line numbers shifted by the lines that precede B')
+def f2_shift(S0: int, k: int) -> bool:
+    """
+    pre: 0 <= k <= 3
+    post: _
+    """
+    from vfy.lemmas.c13 import n1_shift
+    return n1_shift(S0, k)
